@@ -91,7 +91,8 @@ def check_engine(ctx, case):
     fam, n, tau = case['fam'], int(case['n']), float(case['tau'])
     om = np.asarray(case['omega'], dtype=float)
     p = sign_pulse(fam, n, tau)
-    F = p.get_filter_function(om)[0, 0].real
+    # (the option that caches the intermediate arrays must not change the numbers)
+    F = p.get_filter_function(om, cache_intermediates=bool(case.get('ci', False)))[0, 0].real
     num = F*om**2
     ref = py_value(fam, om*tau, n)
     sc = max(np.max(np.abs(ref)), 1e-3)
@@ -166,7 +167,7 @@ def search(ctx, deep=False):
             om = om[np.abs(np.cos(z/(2*k))) > 1e-2]
         if len(om) == 0:
             continue
-        check_engine(ctx, {'fam': fam, 'n': k, 'tau': tau, 'omega': om})
+        check_engine(ctx, {'fam': fam, 'n': k, 'tau': tau, 'omega': om, 'ci': bool(i % 3 == 1)})
         if i % 8 == 0 and fam not in ('FID',):
             check_finite_width(ctx, {'fam': fam, 'n': min(k, 4), 'tau': tau, 'omega': om[:6]})
         if i < 2:
